@@ -62,6 +62,19 @@ def grids(rep, tier):
         rep.add(Result("C04.non-binding-grid", BOUNDED_OK, klass="B", backend="native-oracle", function="mako.pyparser:FindIdentifiers / mako.codegen:_Identifiers", bound=bound3,
                        evaluations=len(nb), time_s=time.time() - t2, detail="the later read resolves to the context (%d cases of the known finding excluded)" % (len(outs3) - len(unknown))))
 
+    # a name read only inside a nested function / lambda / comprehension (also one that reuses it as loop variable)
+    from vrf.bounded.scope_grid import inner_read_cases, run_inner_read
+    t5 = time.time()
+    ir = inner_read_cases()
+    outs5 = [o for o in pool_map(run_inner_read, ir) if o]
+    b5 = "12 constructs whose only read of a context name is inside a nested function, lambda, parameter default or comprehension iterable (six reuse the name as the comprehension variable) x {body, def, block} x strict_undefined"
+    if outs5:
+        rep.add(Result("C04.inner-read-grid", VIOLATED, klass="B", backend="native-oracle", function="mako.pyparser:FindIdentifiers / mako.codegen:_Identifiers", bound=b5,
+                       evaluations=len(ir), detail="%s: %s" % (outs5[0]["kind"], outs5[0]["got"]), witness=outs5[0], replayed=True, replay={"failures": outs5[:3]}, time_s=time.time() - t5))
+    else:
+        rep.add(Result("C04.inner-read-grid", BOUNDED_OK, klass="B", backend="native-oracle", function="mako.pyparser:FindIdentifiers / mako.codegen:_Identifiers", bound=b5,
+                       evaluations=len(ir), time_s=time.time() - t5, detail="every inner read resolves to the context value"))
+
     # names read or bound only in an else / elif / finally / handler clause of a statement in a <% %> block
     from vrf.bounded import reemit_grid as RG
     t4 = time.time()
